@@ -243,6 +243,9 @@ def main(ctx):
     cov["real_ceremony"] = c17b.run(ctx, quick)
     cov["states"] += cov["real_ceremony"].get("states", 0)
     cov["transitions"] += cov["real_ceremony"].get("transitions", 0)
+    # growth module: qualification of flips and candidates (Qualification.tla: qualifyOneFlip / qualifyFlips / qualifyCandidate /
+    # reporters book transcribed, case tables and populations run on the real functions)
+    cov["qualification"] = vlib.run_extra(ctx, "extra_qual", quick)
     return vlib.finish(ctx, "model_checking", cov, assumptions=c17b.ASSUMPTIONS + [
         "scores are non-negative float32 values; short and long scores are never NaN (the ceremony guards those divisions), the total "
         "score may be NaN (0/0) and then fails every threshold",
